@@ -5,6 +5,7 @@ import (
 	"github.com/brutella/hc/crypto"
 	"github.com/brutella/hc/log"
 	"net"
+	"sync"
 	"time"
 
 	"encoding/binary"
@@ -24,6 +25,8 @@ type Connection struct {
 	context    Context
 
 	// Used to buffer reads
+	writeMutex sync.Mutex // serializes encrypting and sending of data
+
 	readBuffer io.Reader
 	received   []byte // received bytes which are not decrypted yet
 }
@@ -125,6 +128,11 @@ func (con *Connection) readFrame() ([]byte, error) {
 // Write writes bytes to the connection.
 // The written bytes are encrypted when possible.
 func (con *Connection) Write(b []byte) (int, error) {
+	// Responses, event notifications and keep-alives are written from different goroutines.
+	// The frame counter must be incremented in the order in which the frames are sent.
+	con.writeMutex.Lock()
+	defer con.writeMutex.Unlock()
+
 	if con.getEncrypter() != nil {
 		return con.EncryptedWrite(b)
 	}
